@@ -256,6 +256,9 @@ func (b *setBox[T]) enumAdapter() *enumAdapter {
 	if len(cod) > 3 {
 		cod = cod[:3]
 	}
+	if b.sys.Gen != nil {
+		cod = []T{b.sys.Gen(1000001), b.sys.Gen(1000002), b.sys.Gen(1000003)}
+	}
 	return &enumAdapter{name: b.a.name + "/" + b.sys.CmpN, seq: b.ExpSeq(), codomain: len(cod), findNone: Pair{-1, zero},
 		recvKey: b.Key, recvObj: b.a.obj, recheck: b.CheckState,
 		each: func(cb func(a, b any)) { b.a.each(func(i int, v T) { cb(i, v) }) },
@@ -270,7 +273,7 @@ func (b *setBox[T]) enumAdapter() *enumAdapter {
 					rb.refAdd(e.B.(T))
 				}
 				return rb.CheckState()
-			}, r.obj, func() { r.add(b.sys.Absent); r.remove(b.sys.U[0]); r.clear() }
+			}, r.obj, func() { r.add(b.sys.Absent); r.remove(cod[0]); r.clear() }
 		},
 		mapF: func(cb func(a, b any) int) (func([]int) *Viol, any, func()) {
 			r := b.a.mapF(func(i int, v T) T { return cod[cb(i, v)] })
@@ -293,12 +296,12 @@ func (b *setBox[T]) enumAdapter() *enumAdapter {
 					return viol(tag("C14"), "mismatch", "Values() = %v, but adding the mapped elements one by one to a fresh %s gives %v", got, b.a.name, want)
 				}
 				return nil
-			}, r.obj, func() { r.add(b.sys.Absent); r.remove(b.sys.U[0]); r.clear() }
+			}, r.obj, func() { r.add(b.sys.Absent); r.remove(cod[0]); r.clear() }
 		}}
 }
 
 func (b *kvBox[K, V]) enumAdapter() *enumAdapter {
-	if b.a.each == nil {
+	if b.a.each == nil || b.sys.Pos {
 		return nil
 	}
 	var zk K
